@@ -149,6 +149,7 @@ def run(pid, tier, seed, work, log, replay=None):
     tb = V.build_harness(work)
     traces, crashed = V.run_scenarios(tb, scen, work, timeout=1500 if tier == 'quick' else 10000)   # a GC scenario = dozens of child recoveries
     res['violations'] += V.crash_verdicts(crashed, pid)
+    res['violations'] += V.died_verdicts(traces, pid)
     allev, per = [], {}
     for s in scen:
         if s['id'] in traces:
